@@ -21,7 +21,7 @@ def replay(fn, params):
     global _SRC
     if _SRC is None:
         src = inspect.getsource(cs)
-        _SRC = inspect.getsource(C08_ref) + '\n\n' + src[:src.index('\ndef case_')] + '\n\n' + '\n\n'.join(inspect.getsource(getattr(cs, h)) for h in ('_bc_for', '_mt', '_type_ok')) + '\n\n'
+        _SRC = inspect.getsource(C08_ref) + '\n\n' + src[:src.index('\ndef case_')] + '\n\n' + '\n\n'.join(inspect.getsource(getattr(cs, h)) for h in ('_bc_for', '_given', '_mt', '_type_ok')) + '\n\n'
     return REPLAY_HEAD + _SRC + inspect.getsource(fn) + f"\n\nbad = {fn.__name__}(**{params!r})\nfor b in bad:\n    print(b)\nassert not bad, bad[0][0]\n"
 
 
@@ -92,11 +92,11 @@ def general_scatter(r, tier, seed):
                                      xkind=XK[rng.integers(6)], bckind=bc, bcdiag=bd, constkind=const, mtype=mt, seed=seed + k))
 
 
-MATS = [(1.0, 0.3, 'strain'), (210e9, 0.3, 'stress'), (1e-3, 0.0, 'Stress'), (2.0, -0.4, 'strain'), (5.0, 0.49, 'stress'), (7.0, 0.45, 'STRAIN'), (3.0, 0.25, 'stress')]
+MATS = [(1.0, 0.3, 'strain'), (210e9, 0.3, 'stress'), (1e-3, 0.0, 'Stress'), (2.0, -0.4, 'strain'), (5.0, 0.49, 'stress'), (7.0, 0.45, 'STRAIN'), (3.0, 0.25, 'stress'), (None, None, None)]
 
 
 @bound('AssembleStiffness on 13 domains [quick] / 23 [thorough] x 4 element-size triples (unit, anisotropic, thin, 1e-2 scale; 2-D thickness = third size) x materials '
-       '(E,nu,plane) in {(1,.3,strain),(210e9,.3,stress),(1e-3,0,Stress),(2,-.4,strain),(5,.49,stress),(7,.45,STRAIN),(3,.25,stress)} x x{positive,ones,with exact zeros,mixed sign} '
+       '(E,nu,plane) in {(1,.3,strain),(210e9,.3,stress),(1e-3,0,Stress),(2,-.4,strain),(5,.49,stress),(7,.45,STRAIN),(3,.25,stress), all three omitted (defaults 1, .3, strain)} x x{positive,ones,with exact zeros,mixed sign} '
        'x bc{none,random,first,all,int32,list,empty} x bcdiagval{default = largest element entry,0,1e3} x {keyword, positional pass-through} (rotating through the product), matrix_type{default,csr,coo,csc_array}; clauses: = scatter of the exact element integral, symmetric, PSD (x>=0), '
        '3/6 rigid motions annihilated, affine-field energy = sum x_e V_e eps:D:eps with D from the inverse compliance')
 def stiffness(r, tier, seed):
@@ -114,7 +114,7 @@ def stiffness(r, tier, seed):
                     run(r, cs.case_stiffness, dict(nx=dom[0], ny=dom[1], nz=dom[2], h=h, E=E, nu=nu, plane=plane, xkind=xk, bckind=bc, bcdiag=bd, positional=pos, mtype=MT4[k % 7 % 4 if k % 7 < 4 else 0], seed=seed + k))
 
 
-@bound('AssembleMass on the same domains x sizes, rho in {1, 2700, 1e-3}, dofs per node 1..3 (also != dim), x{positive,with zeros,mixed sign}, bc{none,random,last,int32,all} x '
+@bound('AssembleMass on the same domains x sizes, rho in {1, 2700, 1e-3}, dofs per node 1..3 (also != dim), both omitted (defaults 1.0, one dof), x{positive,with zeros,mixed sign}, bc{none,random,last,int32,all} x '
        'bcdiagval{default 0, 1, -2} x {keyword, positional bc} (rotating through the product); clauses: = scatter of rho * exact integral of N^T N (2-D: times thickness), 1_a^T M 1_b = delta_ab rho V sum(x)')
 def mass(r, tier, seed):
     k = 0
@@ -122,15 +122,15 @@ def mass(r, tier, seed):
     opts = [(bc, bd, pos) for bc in (None, 'rand', 'last', 'int32', 'all') for bd in (None, 1.0, -2.0) for pos in (False, True)] + [(None, None, False)] * 10
     for dom in domains(tier):
         for h in SIZES:
-            for rho in (1.0, 2700.0, 1e-3):
-                for ndof in (1, 2, 3):
+            for rho in (1.0, 2700.0, 1e-3, None):
+                for ndof in ((1, 2, 3) if rho is not None else (None,)):
                     for rep in range(1 if tier == 'quick' else 4):
                         k += 1
                         bc, bd, pos = opts[(k * 29) % len(opts)]
                         run(r, cs.case_mass, dict(nx=dom[0], ny=dom[1], nz=dom[2], h=h, rho=rho, ndof=ndof, xkind=xks[k % 3], bckind=bc, bcdiag=bd, positional=pos, mtype=MT4[k % 7 % 4 if k % 7 < 4 else 0], seed=seed + k))
 
 
-@bound('AssemblePoisson on the same domains x sizes, conductivity in {1, 400, 1e-3, integer 2}, x{positive,with zeros,mixed sign}, bc{none,random,first,all,list} x bcdiagval{default largest element entry, 0, 5} x {keyword, positional bc} (rotating through the product); '
+@bound('AssemblePoisson on the same domains x sizes, conductivity in {1, 400, 1e-3, integer 2, omitted (default 1.0)}, x{positive,with zeros,mixed sign}, bc{none,random,first,all,list} x bcdiagval{default largest element entry, 0, 5} x {keyword, positional bc} (rotating through the product); '
        'clauses: = scatter of k * exact integral of grad N.grad N (2-D: times thickness), P 1 = 0, u_lin^T P u_lin = k V |g|^2 sum(x)')
 def poisson(r, tier, seed):
     k = 0
@@ -138,7 +138,7 @@ def poisson(r, tier, seed):
     opts = [(bc, bd, pos) for bc in (None, 'rand', 'first', 'all', 'list') for bd in (None, 0.0, 5.0) for pos in (False, True)] + [(None, None, False)] * 10
     for dom in domains(tier):
         for h in SIZES:
-            for kappa in (1.0, 400.0, 1e-3, 2):
+            for kappa in (1.0, 400.0, 1e-3, 2, None):
                 for rep in range(2 if tier == 'quick' else 8):
                     k += 1
                     bc, bd, pos = opts[(k * 29) % len(opts)]
